@@ -261,7 +261,9 @@ and `iseg_offset` / `rseg_offset` of the RstWell constructor at candidate window
 position `((msw-1)·NSEGMX + (segno-1))·elems`, for EVERY INTEHEAD, every well, every segment number and — the point —
 every storage position `idx` of the segment in the well's segment set.  LoadRestart files the segment under its number;
 RstWell gives window `is` the number `segno` exactly when `is = segno - 1`.  The sources of the variables (`segNumber` is
-`….segmentNumber()`, `mswID` is `IWEL[MsWID]`) and the list of accesses that do NOT go through the segment base are pinned. -/
+`….segmentNumber()`, `mswID` is `IWEL[MsWID]`) and the list of accesses that do NOT go through the segment base are pinned: the only ISEG item
+stored by storage position is `SegNo`, and the item RstWell tests to decide that window `is` holds a segment is `BranchNo`
+(stored at the segment base; before ffeaf0779 it was `SegNo`, so gapped numberings came back with phantom / lost segments). -/
 theorem segment_windows_coincide (s : Seg) :
     (∀ b ∈ writerIsegBases, writerPos writerIsegEntriesPerMSW b s.nisegz s = canon s.nisegz s) ∧
     (∀ b ∈ writerRsegBases, writerPos writerRsegEntriesPerMSW b s.nrsegz s = canon s.nrsegz s) ∧
@@ -272,9 +274,10 @@ theorem segment_windows_coincide (s : Seg) :
     (writerIsegSegNumberSrc = ["segment.segmentNumber()"] ∧ writerRsegSegNumberSrc = ["segment0.segmentNumber()", "segment.segmentNumber()"] ∧
       writerIsegElemsSrc = "nisegz(inteHead)" ∧ writerRsegElemsSrc = "nrsegz(inteHead)" ∧
       loaderSegNumberSrc = "segSet[segID].segmentNumber()" ∧ loaderMswSrc = "iwel[VI::IWell::index::MsWID]" ∧
-      writerIsegOther = [("iSeg", "ind*noElmSeg+Ix::SegNo")] ∧ writerRsegOther = [("rSeg", "8")]) :=
+      writerIsegOther = [("iSeg", "ind*noElmSeg+Ix::SegNo")] ∧ writerRsegOther = [("rSeg", "8")] ∧
+      rstExistsSrc = "iseg[iseg_offset+VI::ISeg::BranchNo]") :=
   ⟨writer_iseg_pos s, writer_rseg_pos s, loader_rseg_pos s, loader_key s, rst_pos s, rst_number_inj s,
-   by decide, by decide, by decide, by decide, by decide, by decide, by decide, by decide⟩
+   by decide, by decide, by decide, by decide, by decide, by decide, by decide, by decide, by decide⟩
 
 open OpmVerif.RstSegWin in
 /-- … and that canonical integer is the natural-number window position the round trip below is stated with. -/
